@@ -95,6 +95,9 @@ def gen_consts():
     if old != text:
         with open(path, 'w') as f:
             f.write(text)
+    # control flow translated from the source (DT_InSV.opt -> GenCode.lean)
+    from consts import write_gencode
+    write_gencode()
     return old is not None and old != text
 
 
